@@ -56,12 +56,6 @@ size_t nondet_mm_idx(void); _Bool nondet_mm_ok(void);
 static int secp256k1_ecmult_multi_var(const secp256k1_callback* error_callback, secp256k1_scratch *scratch, secp256k1_gej *r, const secp256k1_scalar *inp_g_sc, secp256k1_ecmult_multi_callback cb, void *cbdata, size_t n);
 #include "src/secp256k1.c"
 #include "post.h"
-/* verif.h's INPUT_BUF allocates 1 byte for len == 0; exact objects also for the empty input: */
-#ifndef VERIF_NATIVE
-# define INPUT_BUF_EXACT(name, ptr, len, N) do { ptr = malloc(len); __CPROVER_assume(ptr != NULL); } while (0)
-#else
-# define INPUT_BUF_EXACT(name, ptr, len, N) INPUT_BUF(name, ptr, len, N)
-#endif
 
 /* ---- model of secp256k1_scratch_alloc: ABSTRACT form of the contract that C19.scratch_alloc /
  * C19.scratch_checkpoint prove on the real body (success exactly when the 16-byte-rounded size fits,
@@ -125,7 +119,7 @@ void h_verify_gate(void) {
     memcpy(scr.magic, "scratch", 8); scr.max_size = max_size; scr.alloc_size = alloc0;
     scr.data = malloc(1);                     /* the data block itself is abstracted */
     __CPROVER_assume(scr.data != NULL); data0 = scr.data;
-    INPUT_BUF_EXACT(pf, proof, proof_len, 8);
+    INPUT_BUF(pf, proof, proof_len, 8);
     gv.n = gn; gv.gens = malloc(gn * sizeof(secp256k1_ge)); __CPROVER_assume(gv.gens != NULL);
     c_vec = malloc(c_len * sizeof(secp256k1_scalar)); __CPROVER_assume(c_vec != NULL);
     { size_t q; for (q = 0; q < VLEN; q++) if (q < c_len) __CPROVER_assume(scalar_ok(&c_vec[q])); }   /* c_vec holds scalars (checked where it is read: lengths <= VLEN) */
